@@ -3,7 +3,8 @@ Coq `show_*` functions in props/c13.py IMPORTS), Coq term printer, and the prope
 (a direct Python statement of C13 applied to what the implementation did)."""
 from vt import core
 
-PRIMS = ("INT", "STRING")
+PRIMS = ("INT", "STRING", "WW")
+MATCH_RULES = ("W", "WW", "WWW")
 
 
 # ------------------------------------------------------------------ grammar generator
@@ -31,7 +32,7 @@ def gen_grammar(r, big=False, imports=False):
         rules["A%d" % i] = {"kind": "abstract", "alts": alts}
 
     def rank(t):
-        if t in PRIMS or t == "W":
+        if t in PRIMS or t in MATCH_RULES:
             return 10 ** 6
         if t.startswith("C"):
             return int(t[1:])
@@ -48,7 +49,7 @@ def gen_grammar(r, big=False, imports=False):
         attrs = []
         nattr = r.range(1, 4) if ci == 0 else r.weighted([(0, 2), (1, 4), (2, 4), (3, 2)])
         for ai in range(nattr):
-            kind = r.weighted([("one", 4), ("many", 5), ("ref", 2), ("refs", 2), ("prim", 2), ("objtyped", 1)])
+            kind = r.weighted([("one", 4), ("many", 5), ("ref", 2), ("refs", 2), ("prim", 3), ("objtyped", 1)])
             if ci == 0 and ai == 0:
                 kind = "many"
             name = "f%d" % ai
@@ -65,13 +66,14 @@ def gen_grammar(r, big=False, imports=False):
             elif kind in ("ref", "refs"):
                 attrs.append({"name": name, "kind": kind, "type": r.choice(types), "kw": new_kw()})
             elif kind == "prim":
-                attrs.append({"name": name, "kind": "prim", "type": r.choice(["INT", "STRING", "W"]), "kw": new_kw()})
+                attrs.append({"name": name, "kind": "prim", "type": r.choice(["INT", "STRING", "W", "WW", "WWW", "WW", "WWW"]), "kw": new_kw()})
             else:
                 t1, t2 = r.choice(commons[1:]), r.choice(commons[1:])
                 attrs.append({"name": name, "kind": "objtyped", "types": [t1, t2], "kws": [new_kw(), new_kw()]})
         rules[c] = {"kind": "common", "kw": kw("c", ci), "attrs": attrs}
-    rules["W"] = {"kind": "match"}
-    order = commons + abstracts + ["W"]
+    for m in MATCH_RULES:
+        rules[m] = {"kind": "match"}
+    order = commons + abstracts + list(MATCH_RULES)
     if imports:
         rules["Import"] = {"kind": "import"}
         order.append("Import")
@@ -83,7 +85,7 @@ def grammar_text(g):
     for name in g["order"]:
         ru = g["rules"][name]
         if ru["kind"] == "match":
-            out.append("%s: /w[0-9]+/;" % name)
+            out.append({"W": "W: /w[0-9]+/;", "WW": "WW: W ('-' W)?;", "WWW": "WWW: WW '+' WW;"}[name])
         elif ru["kind"] == "import":
             out.append("Import: 'import' importURI=STRING;")
         elif ru["kind"] == "abstract":
@@ -123,7 +125,37 @@ def concretes(g, t):
     return res
 
 
-def gen_model(r, g, maxobjs, start=0, extern=()):
+def fill_refs(r, g, objs, visible):
+    """Give the reference attributes of `objs` targets (by name) among the `visible` objects."""
+    for o in objs:
+        for a in g["rules"][o["rule"]]["attrs"]:
+            if a["kind"] not in ("ref", "refs"):
+                continue
+            cs = [c for c in concretes(g, a["type"]) if c not in PRIMS]
+            cands = [x["name"] for x in visible if x["rule"] in cs]
+            if not cands:
+                continue
+            if a["kind"] == "ref":
+                if r.chance(0.7):
+                    o["attrs"][a["name"]] = {"ref": r.choice(cands)}
+            else:
+                n = r.weighted([(0, 2), (1, 3), (2, 3), (3, 1)])
+                o["attrs"][a["name"]] = {"refs": [r.choice(cands) for _ in range(n)]}
+
+
+# import graphs of the multi-model cases: edges (importer, imported) over models 0..k-1, 0 = main
+SHAPES = {
+    "pair": (2, [(0, 1)]),
+    "chain": (3, [(0, 1), (1, 2)]),
+    "star": (3, [(0, 1), (0, 2)]),
+    "diamond": (4, [(0, 1), (0, 2), (1, 3), (2, 3)]),
+    "cycle2": (2, [(0, 1), (1, 0)]),
+    "cycle3": (3, [(0, 1), (1, 2), (2, 0)]),
+    "chain+back": (3, [(0, 1), (1, 2), (2, 1)]),
+}
+
+
+def gen_model(r, g, maxobjs, start=0, extern=(), fill=True):
     """Containment tree with unique names, then references by name (also to `extern` objects)."""
     cnt = [start]
     maxobjs += start
@@ -135,7 +167,13 @@ def gen_model(r, g, maxobjs, start=0, extern=()):
         if t == "STRING":
             s = r.choice(["s", "ab", "x y", ""])
             return {"prim": "STRING", "text": '"%s"' % s}
-        return {"prim": "W", "text": "w%d" % r.range(0, 9)}
+        w = lambda: "w%d" % r.range(0, 9)  # noqa: E731
+        ww = lambda: (w() + "-" + w()) if r.chance(0.5) else w()  # noqa: E731
+        if t == "W":
+            return {"prim": "W", "text": w()}
+        if t == "WW":
+            return {"prim": "WW", "text": ww()}
+        return {"prim": "WWW", "text": ww() + "+" + ww()}
 
     def obj(rule, depth):
         cnt[0] += 1
@@ -154,7 +192,7 @@ def gen_model(r, g, maxobjs, start=0, extern=()):
                 n = max(n, lo)
                 o["attrs"][a["name"]] = [value(a["type"], depth + 1) for _ in range(n)]
             elif k == "prim":
-                if r.chance(0.6):
+                if r.chance(0.75):
                     o["attrs"][a["name"]] = prim(a["type"])
             elif k == "objtyped":
                 if room and r.chance(0.7):
@@ -178,21 +216,8 @@ def gen_model(r, g, maxobjs, start=0, extern=()):
         return obj(c, depth)
 
     root = obj("C0", 0)
-    # references
-    for o in objs:
-        for a in g["rules"][o["rule"]]["attrs"]:
-            if a["kind"] not in ("ref", "refs"):
-                continue
-            cs = [c for c in concretes(g, a["type"]) if c not in PRIMS]
-            cands = [x["name"] for x in list(objs) + list(extern) if x["rule"] in cs]
-            if not cands:
-                continue
-            if a["kind"] == "ref":
-                if r.chance(0.7):
-                    o["attrs"][a["name"]] = {"ref": r.choice(cands)}
-            else:
-                n = r.weighted([(0, 2), (1, 3), (2, 3), (3, 1)])
-                o["attrs"][a["name"]] = {"refs": [r.choice(cands) for _ in range(n)]}
+    if fill:
+        fill_refs(r, g, objs, list(objs) + list(extern))
     return root, objs
 
 
@@ -247,18 +272,33 @@ def gen_case(r, thorough=False):
     g = gen_grammar(r.split("g"), big=thorough, imports=multi)
     maxobjs = r.weighted([(4, 2), (8, 4), (14, 3), (22, 1)]) if not thorough else r.weighted([(5, 2), (10, 3), (18, 3), (30, 2)])
     files = {}
-    objs2 = []
+    shape = None
     if multi:
-        root2, objs2 = gen_model(r.split("m2"), g, max(3, maxobjs // 2), start=100)
-        files["other.m"] = model_text(g, root2)
-    root, objs = gen_model(r.split("m"), g, maxobjs, extern=objs2)
-    if multi:
-        root["imports"] = ["other.m"]
-    objs = objs + objs2
+        rs = r.split("shape")
+        shape = rs.weighted([("pair", 3), ("chain", 2), ("star", 1), ("diamond", 2), ("cycle2", 2), ("cycle3", 1), ("chain+back", 1)])
+        k, edges = SHAPES[shape]
+        per = max(3, maxobjs // k)
+        trees = [gen_model(r.split("m%d" % i), g, per, start=100 * i, fill=False) for i in range(k)]
+        fname = lambda i: "m%d.m" % i  # noqa: E731
+        for i in range(k):
+            imported = [j for a, j in edges if a == i]
+            visible = list(trees[i][1])
+            for j in imported:
+                visible += trees[j][1]
+            fill_refs(r.split("refs%d" % i), g, trees[i][1], visible)
+            trees[i][0]["imports"] = [fname(j) for j in imported]
+        root = trees[0][0]
+        objs = [o for t in trees for o in t[1]]
+        for i in range(1, k):
+            files[fname(i)] = model_text(g, trees[i][0])
+    else:
+        root, objs = gen_model(r.split("m"), g, maxobjs)
     text = model_text(g, root)
     refs = expected_refs(objs)
     rr = r.split("p")
-    names = [n for n in g["order"] if n != "W"] + ["OBJECT"]
+    names = [n for n in g["order"] if n not in MATCH_RULES] + ["OBJECT"]
+    # match-rule processors: registered on a subset, each appending a fixed suffix to its argument
+    match_reg = {m: rr.choice(["", "!", "~"]) for m in MATCH_RULES if rr.chance(0.7)}
     mode = rr.weighted([("all", 5), ("subset", 4), ("none", 1)])
     if mode == "all":
         reg = list(names)
@@ -299,9 +339,9 @@ def gen_case(r, thorough=False):
                 bad = None
             text = " ".join(toks)
     postpone = bad is not None and rr.chance(0.5)
-    return {"grammars": {"main.tx": grammar_text(g)}, "main": "main.tx", "model": text, "files": files, "reg": reg, "postpone_bad": postpone,
+    return {"grammars": {"main.tx": grammar_text(g)}, "main": "main.tx", "model": text, "files": files, "shape": shape, "reg": reg, "postpone_bad": postpone,
             "actions": actions, "user": user, "expect_refs": refs, "expect_error": bad is not None,
-            "match_rules": ["W"]}
+            "match_reg": match_reg}
 
 
 # ------------------------------------------------------------------ canonical printing
@@ -479,6 +519,14 @@ def oracle(case, o, idx_of):
         return bad
     if not o["ok"]:
         return ["load failed: %s: %s" % (o["error_type"], o["error"])]
+    # every model under construction (main + every file of the import graph, however often and
+    # along whichever path it is imported) is processed exactly once
+    want_models = 1 + len(case.get("files") or {})
+    if len(o["models"]) != want_models:
+        bad.append("%d models processed, the import graph has %d" % (len(o["models"]), want_models))
+    roots = [m["tree"]["id"] for m in o["models"] if m["tree"] and "id" in m["tree"]]
+    if len(set(roots)) != len(roots):
+        bad.append("a model was processed twice")
     # phase order
     kinds = [e["k"] for e in o["events"]]
     if "proc" in kinds:
@@ -496,6 +544,11 @@ def oracle(case, o, idx_of):
             break
     if o["n_user_objs"] != len([k for k in kinds if k == "init"]):
         bad.append("user-class objects: %d allocated, %d initialised" % (o["n_user_objs"], kinds.count("init")))
+    mreg = {idx_of[n]: suf for n, suf in case.get("match_reg", {}).items() if n in idx_of}
+    mcalls = [(e["p"], e["v"]) for e in o["events"] if e["k"] == "match"]
+    if mcalls != match_expected(o.get("forest", []), mreg):
+        bad.append("match-rule processor calls %r differ from the documented order (children left to right, innermost first) %r"
+                   % (mcalls[:6], match_expected(o.get("forest", []), mreg)[:6]))
     reg = {idx_of[n] for n in case["reg"] if n in idx_of}
     byname = {}
     acc = []
@@ -566,3 +619,33 @@ def oracle(case, o, idx_of):
         if m["final"] != show_value(v2):
             bad.append("final model differs from the documented replacement result: %s vs %s" % (m["final"], show_value(v2)))
     return bad
+
+
+# ------------------------------------------------------------------ match-rule processors
+def coq_ptree(t):
+    if t[0] == "T":
+        return "(PTerm %d %s)" % (t[1], core.coq_str(t[2]))
+    ks = "PNil"
+    for k in reversed(t[2]):
+        ks = "(PCons %s %s)" % (coq_ptree(k), ks)
+    return "(PNode %d %s)" % (t[1], ks)
+
+
+def match_expected(forest, reg):
+    """Documented order: per match value in build order, children left to right, innermost
+    first; a node's processor gets the concatenation of its children's results.
+    reg: {rule index: suffix}.  Returns the list of (rule index, argument)."""
+    calls = []
+
+    def conv(t):
+        if t[0] == "T":
+            arg = t[2]
+        else:
+            arg = "".join(conv(k) for k in t[2])
+        if t[1] in reg:
+            calls.append((t[1], arg))
+            return arg + reg[t[1]]
+        return arg
+    for t in forest:
+        conv(t)
+    return calls
